@@ -39,7 +39,8 @@ func vhI32(v int32) *int32 { return &v }
 // symKind selects which kind of object gets symbolic names (0 pools, 1 L2 advs, 2 BGP advs, 3 nodes).
 // variant 0: a valid snapshot; variant 1: pool 2 is dual-stack and two BGP advertisements with
 // different local preferences differ in aggregation length for IPv4 only (a conflict: must be rejected
-// whatever the order); variant 2: pool 1's prefix lies inside pool 0's (must be rejected whatever the order).
+// whatever the order); variant 2: pool 1's prefix lies inside pool 0's (must be rejected whatever the order);
+// variant 3: a dual-stack pool with an IPv4 aggregation length shorter than its IPv4 prefix (must be rejected).
 func vhSnapshot(symKind int) config.ClusterResources { return vhSnapshotV(symKind, 0) }
 
 func vhSnapshotV(symKind, variant int) config.ClusterResources {
@@ -61,6 +62,11 @@ func vhSnapshotV(symKind, variant int) config.ClusterResources {
 	addrs := [][]string{{"10.1.0.0/24"}, {"10.2.0.0/24"}, {"10.3.0.0/24"}}
 	if variant == 1 {
 		addrs[2] = []string{"10.3.0.0/24", "fd00:3::/120"}
+	}
+	if variant == 3 {
+		// dual-stack pool whose IPv4 prefix (/28) is more specific than an advertisement's IPv4
+		// aggregation length (/24): must be rejected, in whatever order the pool's entries are visited
+		addrs[2] = []string{"10.3.0.0/28", "fd00:3::/120"}
 	}
 	if variant == 2 {
 		addrs[0] = []string{"10.1.0.0/16"}
@@ -90,6 +96,10 @@ func vhSnapshotV(symKind, variant int) config.ClusterResources {
 		if variant == 1 {
 			// same IPv6 aggregate, different IPv4 aggregate, different local preference
 			b.Spec.AggregationLengthV6 = vhI32(128)
+		}
+		if variant == 3 && i == 2 {
+			b.Spec.AggregationLength = vhI32(24)
+			b.Spec.AggregationLengthV6 = vhI32(126)
 		}
 		if i > 0 {
 			b.Spec.IPAddressPools = []string{pn[0], pn[i]}
@@ -129,6 +139,8 @@ func VerifToConfigOrder(symKind, mapOrder, variant int) {
 	b, errB := toConfig(res2, config.DontValidate)
 	vr.MapOrder(vr.OrderInsertion)
 	vr.Assert((errA == nil) == (errB == nil), "acceptance of a snapshot depends on the listing order")
+	vr.Assert(variant == 0 || errA != nil, "an invalid snapshot was accepted")
+	vr.Assert(variant == 0 || errB != nil, "an invalid snapshot was accepted in another listing / iteration order")
 	if errA != nil {
 		vr.Reach("snapshot rejected")
 		return
